@@ -45,7 +45,7 @@ func c15Scenario() *explore.Scenario {
 	publics := []string{"p.example", "public." + strings.Repeat("x", 40) + ".example"}
 	return &explore.Scenario{
 		Name:   "ech-accept-reject-hrr",
-		Budget: map[string]int{"cfg": 2},
+		Budget: map[string]int{"cfg": 2, "cli": 1},
 		Run: func(x *explore.X) (r explore.Result) {
 			if len(clients) < 4 {
 				r.Violate("INFRA|c15-clients", "only %d ECH-capable clients", len(clients))
@@ -77,7 +77,31 @@ func c15Scenario() *explore.Scenario {
 			if mode == 1 {
 				scfg.CurvePreferences = []tls.CurveID{tls.CurveP384}
 			}
-			hs := peer.Run(ccfg, g.ID, scfg, peer.Opts{Prepare: g.prepare(), Echo: true, KeepOpen: true})
+			prep := g.prepare()
+			id := g.ID
+			if prefill := x.Choose("cli.prefilled-sni", 2) == 1; prefill {
+				if isGolang(g.ID) {
+					r.Obs = "n/a"
+					return
+				}
+				// the application applies the parrot's spec itself, with the SNI extension already
+				// carrying the real server name
+				id = tls.HelloCustom
+				prep = func(u *tls.UConn) error {
+					sp, err := tls.UTLSIdToSpec(g.ID)
+					if err != nil {
+						return err
+					}
+					for _, e := range sp.Extensions {
+						if sni, ok := e.(*tls.SNIExtension); ok {
+							sni.ServerName = secret
+						}
+					}
+					return u.ApplyPreset(&sp)
+				}
+				what += " prefilled-sni"
+			}
+			hs := peer.Run(ccfg, id, scfg, peer.Opts{Prepare: prep, Echo: true, KeepOpen: true})
 			defer hs.Finish()
 			r.Nontrivial = true
 			r.Class = what
